@@ -153,7 +153,11 @@ def main():
             else:
                 violations.append(o)
         for o in c['unknown']:
-            undecided.append(o)
+            m = [k for k in kfs if kf_match(k, pid, o)]
+            if m:
+                known.append((m[0], o))     # a listed known finding whose obligation the solver leaves open: still the same finding, no new alarm
+            else:
+                undecided.append(o)
 
     # one report per failed clause (first failing instance)
     seen = set()
